@@ -1,8 +1,10 @@
 import Qhttp.Model.Copier
+import Qhttp.Model.CopierStopIn
 import Qhttp.Lemmas.C14Run
 import Qhttp.Lemmas.C14Seq
 import Qhttp.Lemmas.C14Open
 import Qhttp.Lemmas.C14Restart
+import Qhttp.Lemmas.C14StopIn
 /-
   C14 — the device copier delivers exactly the requested bytes and signals completion once.
 -/
@@ -1306,5 +1308,307 @@ example : cfgN.seq = false ∧ anyFault cfgN = false ∧ cfgN.block ≥ 1 ∧ ra
 -- the first run's clauses still see the first run only: a write after the first stop() is rejected
 example : holdsRuns cfgN evsRR [.ev 0, .ev 1, wrote [65, 66, 67], .ev 2, fin, .ev 3, wrote [68, 69, 70], .ev 4,
       .ev 5, .ev 6, wrote [68, 69, 70], .ev 7, wrote [71], fin, .ev 8, .ev 9] = false := by decide
+
+/-! ### 8. `stop()` called from inside a write of the destination
+
+  `Copier.runS c k` (Model/CopierStopIn.lean) is the repaired code when the destination's write
+  number `k` (counted from 0) reaches a slot that calls `stop()` before `write()` returns; the
+  harness produces that with the scenario token `stopin:k`.  `Copier.run` has `stop` only as an
+  event between two turns.  `stopInEvs` is the event list the driver compares such a run with;
+  `stopin_equiv` proves that the two runs log the same signals in the same order (event markers
+  aside: the plain run has one more event), for every random-access configuration — any range,
+  any block size (0 included), any device fault. -/
+
+/-- a log without its event markers -/
+def noMark (l : List Obs) : List Obs := l.filter fun o => match o with | .ev _ => false | _ => true
+theorem noMark_eq : noMark = C14L.noMark := rfl
+
+/-- `stop` placed right after the `k`-th event-loop turn (counted from 0; `seen`: turns passed) -/
+def insertStop (k : Nat) : List Ev → Nat → List Ev
+  | [], _ => []
+  | e :: r, seen =>
+    if e == .turn then (if seen == k then e :: .stop :: r else e :: insertStop k r (seen + 1))
+    else e :: insertStop k r seen
+
+/-- the plain scenario a `stopin:k` run of `evs` is compared with: write number `k` is made by
+    the `(k+1)`-th turn (if the copy gets that far), so `stop` goes right after that turn — unless
+    the plain model has logged a completion by then (the copy ended earlier, block `k` was the last
+    one, or a device failed): then the completion `stop()` signals would be a second one in the
+    plain model while the nested `stop()` pre-empts the copier's own, and the scenario is `evs` -/
+def stopInEvs (c : Cfg) (k : Nat) (evs : List Ev) : List Ev :=
+  let withStop := insertStop k evs 0
+  let upTo := withStop.takeWhile (· != .stop)
+  if (Copier.run c upTo).log.any (· == fin) then evs else withStop
+
+theorem insertStop_short (k : Nat) : ∀ (n seen : Nat), seen + n ≤ k →
+    insertStop k (List.replicate n Ev.turn) seen = List.replicate n Ev.turn := by
+  intro n
+  induction n with
+  | zero => intro seen _; rfl
+  | succ n ih =>
+    intro seen h
+    have hne : ¬ seen = k := by omega
+    rw [List.replicate_succ]
+    simp only [insertStop, beq_self_eq_true, if_true, beq_iff_eq, hne, if_false]
+    rw [ih (seen + 1) (by omega)]
+
+theorem insertStop_long (k m : Nat) : ∀ (d seen : Nat), seen + d = k →
+    insertStop k (List.replicate (d + 1 + m) Ev.turn) seen =
+      List.replicate (d + 1) Ev.turn ++ Ev.stop :: List.replicate m Ev.turn := by
+  intro d
+  induction d with
+  | zero =>
+    intro seen h
+    have he : seen = k := by omega
+    rw [show 0 + 1 + m = m + 1 by omega, List.replicate_succ]
+    simp [insertStop, he]
+  | succ d ih =>
+    intro seen h
+    have hne : ¬ seen = k := by omega
+    rw [show d + 1 + 1 + m = (d + 1 + m) + 1 by omega, List.replicate_succ]
+    simp only [insertStop, beq_self_eq_true, if_true, beq_iff_eq, hne, if_false]
+    rw [ih (seen + 1) (by omega), List.replicate_succ (n := d + 1)]
+    rfl
+
+theorem takeWhile_turns (a : Nat) (r : List Ev) :
+    (List.replicate a Ev.turn ++ Ev.stop :: r).takeWhile (· != .stop) = List.replicate a Ev.turn := by
+  induction a with
+  | zero => simp
+  | succ a ih =>
+    rw [List.replicate_succ, List.cons_append, List.takeWhile_cons, ih]
+    simp
+
+/-- fewer than `k + 1` turns: there is no turn to put `stop` after -/
+theorem stopInEvs_short (c : Cfg) (k n : Nat) (h : n ≤ k) :
+    stopInEvs c k (.start :: List.replicate n .turn) = .start :: List.replicate n .turn := by
+  have e : insertStop k (.start :: List.replicate n .turn) 0 = .start :: List.replicate n .turn := by
+    rw [insertStop]
+    simp only [show (Ev.start == Ev.turn) = false from rfl, Bool.false_eq_true, if_false]
+    rw [insertStop_short k n 0 (by omega)]
+  simp only [stopInEvs, e, ite_self]
+
+/-- at least `k + 1` turns: the test is made on the plain run of `start` and `k + 1` turns -/
+theorem stopInEvs_long (c : Cfg) (k m : Nat) :
+    stopInEvs c k (.start :: List.replicate (k + 1 + m) .turn) =
+      if (Copier.run c (.start :: List.replicate (k + 1) .turn)).log.any (· == fin)
+      then .start :: List.replicate (k + 1 + m) .turn
+      else (.start :: List.replicate (k + 1) .turn) ++ .stop :: List.replicate m .turn := by
+  have e : insertStop k (.start :: List.replicate (k + 1 + m) .turn) 0 =
+      .start :: (List.replicate (k + 1) .turn ++ .stop :: List.replicate m .turn) := by
+    rw [insertStop]
+    simp only [show (Ev.start == Ev.turn) = false from rfl, Bool.false_eq_true, if_false]
+    rw [insertStop_long k m k 0 (by omega)]
+  have e2 : (Ev.start :: (List.replicate (k + 1) Ev.turn ++ Ev.stop :: List.replicate m Ev.turn)).takeWhile (· != .stop) =
+      .start :: List.replicate (k + 1) .turn := by
+    rw [List.takeWhile_cons, takeWhile_turns]
+    simp
+  simp only [stopInEvs, e, e2]
+  rfl
+
+/-- **equivalence**: `stop()` called from inside write number `k` is observed exactly as the
+    plain model's run of `stopInEvs` — the same signals in the same order.  Every random-access
+    configuration (any block size, range, position, device faults), every `k`, every number of
+    turns; no side condition. -/
+theorem stopin_equiv (c : Cfg) (hseq : c.seq = false) (k n : Nat) :
+    noMark (Copier.runS c k (.start :: List.replicate n .turn)).log =
+    noMark (Copier.run c (stopInEvs c k (.start :: List.replicate n .turn))).log := by
+  by_cases hn : n ≤ k
+  · rw [stopInEvs_short c k n hn, C14L.runS_short c hseq k n hn]
+  · obtain ⟨m, rfl⟩ : ∃ m, n = k + 1 + m := ⟨n - (k + 1), by omega⟩
+    rw [stopInEvs_long]
+    obtain ⟨_, hcase⟩ := C14L.runS_cases c hseq k m
+    rcases hcase with ⟨ho, hl, hl'⟩ | ⟨hr, _, hl⟩
+    · have hany : (Copier.run c (.start :: List.replicate (k + 1) .turn)).log.any (· == fin) = true := by
+        simp only [List.any_eq_true, beq_iff_eq]
+        exact ⟨fin, ho.closed.mem_fin, rfl⟩
+      rw [if_pos hany, hl, hl']
+    · have hany : ¬ (Copier.run c (.start :: List.replicate (k + 1) .turn)).log.any (· == fin) = true := by
+        simp only [List.any_eq_true, beq_iff_eq]
+        rintro ⟨o, ho, rfl⟩
+        exact C14L.not_mem_fin_of_cnt hr.nofin ho
+      rw [if_neg hany, hl]
+      have hq : ∀ e ∈ List.replicate m Ev.turn, e ≠ .start ∧ e ≠ .stop := by
+        intro e he; rw [List.eq_of_mem_replicate he]; simp
+      obtain ⟨_, ms, hrun, hms⟩ := C14L.run_stop c (.start :: List.replicate (k + 1) .turn) (List.replicate m .turn) hq
+      rw [hrun, noMark_eq, C14L.noMark_append, C14L.noMark_append, C14L.noMark_cons_fin, C14L.noMark_cons_ev,
+        C14L.noMark_cons_fin, C14L.noMark_of_mk hms, C14L.noMark_of_mk (C14L.range'_map_mk _ _)]
+
+/-- with fewer than `k + 1` turns write `k` is not reached: the very same run -/
+theorem stopin_not_reached (c : Cfg) (hseq : c.seq = false) (k n : Nat) (h : n ≤ k) :
+    Copier.runS c k (.start :: List.replicate n .turn) = Copier.run c (.start :: List.replicate n .turn) :=
+  C14L.runS_short c hseq k n h
+
+theorem writtenOf_noMark (l : List Obs) : writtenOf (noMark l) = writtenOf l := by
+  rw [writtenOf_eq, noMark_eq]; exact C14L.written_noMark l
+
+/-- in order, no duplication: whatever write stops the copier, and whatever devices fail, what
+    reached the destination is a prefix of the wanted bytes (from the equivalence, `stop_halts`
+    and `prefix_random_access`) -/
+theorem stopin_prefix (c : Cfg) (hseq : c.seq = false) (hb : c.block ≥ 1) (hr : rangeOK c = true) (k n : Nat) :
+    writtenOf (Copier.runS c k (.start :: List.replicate n .turn)).log <+: wanted c := by
+  have hq : ∀ j, quiet (List.replicate j Ev.turn) = true := by
+    intro j; rw [quiet_iff]; intro e he; rw [List.eq_of_mem_replicate he]; simp
+  rw [← writtenOf_noMark, stopin_equiv c hseq k n, writtenOf_noMark]
+  by_cases hn : n ≤ k
+  · rw [stopInEvs_short c k n hn]
+    exact prefix_random_access c hseq hb hr _ (hq n)
+  · obtain ⟨m, rfl⟩ : ∃ m, n = k + 1 + m := ⟨n - (k + 1), by omega⟩
+    rw [stopInEvs_long]
+    split
+    · exact prefix_random_access c hseq hb hr _ (hq _)
+    · have hpre : Ev.stop ∉ (Ev.start :: List.replicate (k + 1) Ev.turn) := by
+        intro hm
+        rcases List.mem_cons.1 hm with hm | hm
+        · cases hm
+        · have := List.eq_of_mem_replicate hm; cases this
+      rw [(stop_halts c _ _ hpre (hq m)).2.2]
+      exact prefix_random_access c hseq hb hr _ (hq _)
+
+/-- no device fault: the copy is cut after block `k` — exactly the first `min n (k+1)` blocks of
+    the wanted bytes were written (`List.take` stops at the end of `wanted`: when the copy has
+    fewer than `k + 1` blocks, or block `k` is the last, shorter one, that is all of `wanted`) -/
+theorem stopin_written (c : Cfg) (hseq : c.seq = false) (hnf : anyFault c = false) (hb : c.block ≥ 1)
+    (hr : rangeOK c = true) (k n : Nat) :
+    writtenOf (Copier.runS c k (.start :: List.replicate n .turn)).log =
+      (wanted c).take (min n (k + 1) * c.block) := by
+  have hnf' : C14L.anyFault c = false := hnf
+  have hrn := C14L.rangeNF_of_ok c hr
+  by_cases hn : n ≤ k
+  · rw [C14L.runS_short c hseq k n hn, Nat.min_eq_left (by omega)]
+    exact (C14L.run_qinv c hseq hb hrn hnf' n).written
+  · obtain ⟨m, rfl⟩ : ∃ m, n = k + 1 + m := ⟨n - (k + 1), by omega⟩
+    rw [Nat.min_eq_right (by omega)]
+    have ht := (C14L.run_qinv c hseq hb hrn hnf' (k + 1)).written
+    obtain ⟨_, hcase⟩ := C14L.runS_cases c hseq k m
+    rcases hcase with ⟨_, hl, _⟩ | ⟨_, _, hl⟩
+    · rw [hl, writtenOf_eq, C14L.written_append, C14L.written_of_mk (C14L.range'_map_mk _ _), List.append_nil]
+      exact ht
+    · rw [hl, writtenOf_eq, C14L.written_append, C14L.written_cons, C14L.written_fin,
+        C14L.written_of_mk (C14L.range'_map_mk _ _), List.append_nil, List.append_nil]
+      exact ht
+
+/-- … so with at least `k + 1` turns the destination holds `min ((k+1)·block) |wanted|` bytes -/
+theorem stopin_written_length (c : Cfg) (hseq : c.seq = false) (hnf : anyFault c = false) (hb : c.block ≥ 1)
+    (hr : rangeOK c = true) (k n : Nat) (hk : k < n) :
+    (writtenOf (Copier.runS c k (.start :: List.replicate n .turn)).log).length =
+      min ((k + 1) * c.block) (wanted c).length := by
+  rw [stopin_written c hseq hnf hb hr k n, Nat.min_eq_right (by omega), List.length_take]
+
+/-- exactly ONE completion, and nothing after it.  With at least `k + 1` turns — so that write
+    `k` is made if the copy gets that far — and for every random-access configuration (any range,
+    block size, device faults): the timer is idle, and the log is closed: one `fin`, only event
+    markers after it.  In particular when write `k` is the last block: the copier's own
+    `finished()` does not follow the one `stop()` emitted. -/
+theorem stopin_closed (c : Cfg) (hseq : c.seq = false) (k n : Nat) (hk : k < n) :
+    (Copier.runS c k (.start :: List.replicate n .turn)).pending = .none ∧
+    C14L.Closed (Copier.runS c k (.start :: List.replicate n .turn)).log := by
+  obtain ⟨m, rfl⟩ : ∃ m, n = k + 1 + m := ⟨n - (k + 1), by omega⟩
+  obtain ⟨hp, hcase⟩ := C14L.runS_cases c hseq k m
+  refine ⟨hp, ?_⟩
+  rcases hcase with ⟨ho, hl, _⟩ | ⟨hr, _, hl⟩
+  · rw [hl]; exact ho.closed.append_mk (C14L.range'_map_mk _ _)
+  · rw [hl]; exact ⟨_, _, rfl, hr.nofin, C14L.range'_map_mk _ _⟩
+
+/-- the same in the terms of `holds`: one completion; after it no write, no completion; at or
+    after it no error -/
+theorem stopin_once (c : Cfg) (hseq : c.seq = false) (k n : Nat) (hk : k < n) :
+    let s := Copier.runS c k (.start :: List.replicate n .turn)
+    s.pending = .none ∧
+    Obs.countP isFin s.log = 1 ∧
+    Obs.countP isWrote ((s.log.dropWhile (fun o => !isFin o)).drop 1) = 0 ∧
+    Obs.countP isFin ((s.log.dropWhile (fun o => !isFin o)).drop 1) = 0 ∧
+    Obs.countP isErr (s.log.dropWhile (fun o => !isFin o)) = 0 := by
+  intro s
+  obtain ⟨hp, hcl⟩ := stopin_closed c hseq k n hk
+  refine ⟨hp, hcl.cnt_fin, hcl.no_wrote_after, ?_, hcl.no_err_after⟩
+  obtain ⟨l2, e, h2⟩ := hcl.dropWhile
+  show Obs.countP isFin ((s.log.dropWhile (fun o => !C14L.isFin o)).drop 1) = 0
+  rw [e]; exact C14L.cnt_of_mk C14L.mk_not_fin h2
+
+/-- … and with the markers removed: the log ENDS with its only completion -/
+theorem stopin_ends_with_fin (c : Cfg) (hseq : c.seq = false) (k n : Nat) (hk : k < n) :
+    ∃ l, noMark (Copier.runS c k (.start :: List.replicate n .turn)).log = l ++ [fin] ∧
+         Obs.countP isFin l = 0 :=
+  (stopin_closed c hseq k n hk).2.strip
+
+/-- no device fault: no error is signalled -/
+theorem stopin_no_error (c : Cfg) (hseq : c.seq = false) (hnf : anyFault c = false) (hb : c.block ≥ 1)
+    (hr : rangeOK c = true) (k n : Nat) :
+    Obs.countP isErr (Copier.runS c k (.start :: List.replicate n .turn)).log = 0 := by
+  have hnf' : C14L.anyFault c = false := hnf
+  have hrn := C14L.rangeNF_of_ok c hr
+  have hmk : ∀ j m, Obs.countP C14L.isErr ((List.range' j m).map Obs.ev) = 0 :=
+    fun j m => C14L.cnt_of_mk C14L.mk_not_err (C14L.range'_map_mk j m)
+  by_cases hn : n ≤ k
+  · rw [C14L.runS_short c hseq k n hn]
+    exact (C14L.run_qinv c hseq hb hrn hnf' n).noerr
+  · obtain ⟨m, rfl⟩ : ∃ m, n = k + 1 + m := ⟨n - (k + 1), by omega⟩
+    have ht := (C14L.run_qinv c hseq hb hrn hnf' (k + 1)).noerr
+    obtain ⟨_, hcase⟩ := C14L.runS_cases c hseq k m
+    rcases hcase with ⟨_, hl, _⟩ | ⟨_, _, hl⟩
+    · rw [hl, isErr_eq, C14L.cnt_append, ht, hmk]
+    · rw [hl, isErr_eq, C14L.cnt_append, C14L.cnt_cons, ht, hmk]; rfl
+
+/-- the case the repair is about — `stop()` from inside the LAST write (`|wanted| ≤ (k+1)·block`;
+    or the copy has fewer blocks and write `k` never happens): everything wanted was copied, no
+    error, and still exactly one completion with nothing after it -/
+theorem stopin_last_block (c : Cfg) (hseq : c.seq = false) (hnf : anyFault c = false) (hb : c.block ≥ 1)
+    (hr : rangeOK c = true) (k n : Nat) (hk : k < n) (hlast : (wanted c).length ≤ (k + 1) * c.block) :
+    let s := Copier.runS c k (.start :: List.replicate n .turn)
+    writtenOf s.log = wanted c ∧
+    Obs.countP isErr s.log = 0 ∧
+    Obs.countP isFin s.log = 1 ∧
+    Obs.countP isWrote ((s.log.dropWhile (fun o => !isFin o)).drop 1) = 0 ∧
+    Obs.countP isFin ((s.log.dropWhile (fun o => !isFin o)).drop 1) = 0 ∧
+    s.pending = .none := by
+  intro s
+  obtain ⟨hp, h1, h2, h3, _⟩ := stopin_once c hseq k n hk
+  refine ⟨?_, stopin_no_error c hseq hnf hb hr k n, h1, h2, h3, hp⟩
+  show writtenOf (Copier.runS c k (.start :: List.replicate n .turn)).log = wanted c
+  rw [stopin_written c hseq hnf hb hr k n, Nat.min_eq_right (by omega), List.take_of_length_le hlast]
+
+/-! #### non-vacuity: nested stop -/
+
+-- "ABCDE", block 2 (blocks AB, CD, E), five turns; stop() from inside write 0, 1, 2 (the last block)
+private def cfg5 : Cfg := { src := [65, 66, 67, 68, 69], block := 2 }
+private def evs5 : List Ev := [.start, .turn, .turn, .turn, .turn, .turn]
+example : (Copier.runS cfg5 0 evs5).log =
+    [.ev 0, .ev 1, wrote [65, 66], fin, .ev 2, .ev 3, .ev 4, .ev 5] := by decide
+example : (Copier.runS cfg5 1 evs5).log =
+    [.ev 0, .ev 1, wrote [65, 66], .ev 2, wrote [67, 68], fin, .ev 3, .ev 4, .ev 5] := by decide
+-- the last block: one completion (the unrepaired code signalled a second one here)
+example : (Copier.runS cfg5 2 evs5).log =
+    [.ev 0, .ev 1, wrote [65, 66], .ev 2, wrote [67, 68], .ev 3, wrote [69], fin, .ev 4, .ev 5] ∧
+    (Copier.runS cfg5 2 evs5).stopped = true ∧ (Copier.run cfg5 evs5).stopped = false := by decide
+-- a write the copy does not get to: the plain run
+example : (Copier.runS cfg5 3 evs5).log = (Copier.run cfg5 evs5).log ∧ (Copier.runS cfg5 3 evs5).stopped = false := by decide
+-- what the driver compares with: `stop` after turn k, or nothing for the last block / beyond
+example : stopInEvs cfg5 0 evs5 = [.start, .turn, .stop, .turn, .turn, .turn, .turn] ∧
+    stopInEvs cfg5 1 evs5 = [.start, .turn, .turn, .stop, .turn, .turn, .turn] ∧
+    stopInEvs cfg5 2 evs5 = evs5 ∧ stopInEvs cfg5 3 evs5 = evs5 ∧ stopInEvs cfg5 7 evs5 = evs5 := by decide
+example : (Copier.run cfg5 (stopInEvs cfg5 1 evs5)).log =
+    [.ev 0, .ev 1, wrote [65, 66], .ev 2, wrote [67, 68], .ev 3, fin, .ev 4, .ev 5, .ev 6] := by decide
+-- `stopin_equiv`, `stopin_written`, `stopin_once` instantiated (hypotheses: satisfiable)
+example : cfg5.seq = false ∧ anyFault cfg5 = false ∧ cfg5.block ≥ 1 ∧ rangeOK cfg5 = true ∧
+    evs5 = .start :: List.replicate 5 .turn := by decide
+example : ∀ k ∈ [0, 1, 2, 3],
+    noMark (Copier.runS cfg5 k evs5).log = noMark (Copier.run cfg5 (stopInEvs cfg5 k evs5)).log := by decide
+example : ∀ k ∈ [0, 1, 2, 3],
+    writtenOf (Copier.runS cfg5 k evs5).log = (wanted cfg5).take (min 5 (k + 1) * cfg5.block) ∧
+    Obs.countP isFin (Copier.runS cfg5 k evs5).log = 1 := by decide
+example : writtenOf (Copier.runS cfg5 0 evs5).log = [65, 66] ∧ writtenOf (Copier.runS cfg5 1 evs5).log = [65, 66, 67, 68] ∧
+    writtenOf (Copier.runS cfg5 2 evs5).log = [65, 66, 67, 68, 69] ∧ (wanted cfg5).length ≤ (2 + 1) * cfg5.block := by decide
+-- ranged: "ABCDEFG", block 3, range (2,5) — wanted "CDEF", blocks CDE and F (cut from FG)
+example : (Copier.runS cfgR 0 evs5).log = [.ev 0, .ev 1, wrote [67, 68, 69], fin, .ev 2, .ev 3, .ev 4, .ev 5] ∧
+    (Copier.runS cfgR 1 evs5).log = [.ev 0, .ev 1, wrote [67, 68, 69], .ev 2, wrote [70], fin, .ev 3, .ev 4, .ev 5] ∧
+    stopInEvs cfgR 0 evs5 = [.start, .turn, .stop, .turn, .turn, .turn, .turn] ∧ stopInEvs cfgR 1 evs5 = evs5 := by decide
+example : ∀ k ∈ [0, 1, 2],
+    noMark (Copier.runS cfgR k evs5).log = noMark (Copier.run cfgR (stopInEvs cfgR k evs5)).log ∧
+    writtenOf (Copier.runS cfgR k evs5).log = (wanted cfgR).take (min 5 (k + 1) * cfgR.block) ∧
+    Obs.countP isFin (Copier.runS cfgR k evs5).log = 1 := by decide
+-- a device fault at the write that would stop the copier: error, one completion, no nested stop
+example : (Copier.runS { cfg5 with writeFailAt := some 1 } 1 evs5).log =
+    [.ev 0, .ev 1, wrote [65, 66], .ev 2, err, fin, .ev 3, .ev 4, .ev 5] ∧
+    stopInEvs { cfg5 with writeFailAt := some 1 } 1 evs5 = evs5 := by decide
 
 end Qhttp.C14
